@@ -78,3 +78,31 @@ Theorem C03_network_simplex_edges_point_down : forall p g g',
   feasible g' /\ layers_nonneg g' /\ NSDefs.ns_frame g g'.
 Proof. exact NSHbalance.exec_network_simplex_feasible_all. Qed.
 Print Assumptions C03_network_simplex_edges_point_down.
+
+(* ---------- end to end (Proofs/E2E*.v, Whole*.v, NS*.v, Final.v): no premise besides hypotheses on the input ---------- *)
+From Autog Require Import Pipeline E2EBackbone E2EOutput WholeCrossings WholeOverlap WholeLayout Final.
+
+
+(* [E2_statement sp g g'] (Proofs/E2EOutput.v): every node of the result is listed in exactly the band named by
+   its layer; the nodes of band k all have y = ysum k and height <= the band's height; every non-self-loop edge of
+   the input joins two different bands, and it is flagged ArrowHeadStart exactly when its target sits in a higher
+   band (smaller index) than its source *)
+Theorem C03_component_end_to_end : forall o g g' x, component_input g -> options_ok o ->
+  layout_component o g = Ok (g', x) -> E2_statement (o_layer_spacing o) g g'.
+Proof. exact G2_bands. Qed.
+Print Assumptions C03_component_end_to_end.
+
+(* each band starts at least LayerSpacing below the bottom of every node of the band above *)
+Theorem C03_band_separation_end_to_end : forall o g g' x, component_input g -> options_ok o ->
+  layout_component o g = Ok (g', x) ->
+  forall k n m, In n (l_nodes (glayer g' k)) -> In m (l_nodes (glayer g' (S k))) ->
+    (nY g' n + nH g' n + o_layer_spacing o <= nY g' m)%Q.
+Proof. exact G2_band_separation. Qed.
+Print Assumptions C03_band_separation_end_to_end.
+
+(* if the input is acyclic every edge runs from a higher band to a lower one: none is flagged *)
+Theorem C03_acyclic_input_all_downward : forall o g g' x, component_input g -> options_ok o ->
+  layout_component o g = Ok (g', x) -> CBBase.ranked (fst (Populate.ignore_self_loops g)) ->
+  forall e, In e (g_E g) -> self_loop g e = false -> e_ahs (gedge g' e) = false.
+Proof. exact G2_acyclic_input_has_no_upward_edge. Qed.
+Print Assumptions C03_acyclic_input_all_downward.
